@@ -8,6 +8,7 @@ setting.  `content` is `before ++ atoms ++ after`, so the files start / end with
 Monitored on the real code, not proved: brace collapsing (re-load of the collapsed text), the two
 rewriting strategies and the experimental move (DESIGN.md §4 C05).
 -/
+import LithiumProofs.PairsMove
 import LithiumProofs.Frame
 import LithiumProofs.MinimizeLog
 import LithiumProofs.Load
@@ -113,6 +114,22 @@ theorem C05_frame_pairs (cfg : Cfg) (o : Oracle) (clk : Clock) (t : Testcase) :
     Frame t (around cfg o clk t) ∧ Frame t (balanced cfg o clk t) := by
   exact ⟨frame_of_allT t _ (around_allT _ (frame_closed t) cfg o clk t ⟨rfl, rfl⟩),
     frame_of_allT t _ (balanced_allT _ (frame_closed t) cfg o clk t ⟨rfl, rfl⟩)⟩
+
+/-- minimize-balanced WITH the experimental move: every proposal — removals and both kinds of
+moves — and the final best keep `before` and `after`, for every test, clock and option setting
+(a move re-orders `parts`/`reducible` of a copy of the best testcase and touches nothing else) -/
+theorem C05_frame_move (cfg : Cfg) (o : Oracle) (clk : Clock) (t : Testcase) :
+    Frame t (balancedMove cfg o clk t) :=
+  balancedMove_frame cfg o clk t
+
+/-- non-vacuity: `{ a }` where only the fourth test accepts: the pair cannot go, moving `a` behind
+the closing brace is rejected, moving it in front of the opening brace is accepted -/
+example :
+    let t : Testcase := { before := [1], parts := [[0x7B], [0x61], [0x7D]], reducible := [true, true, true], after := [2] }
+    ((balancedMove { move := true } (fun k _ => k == 3) (fun _ => 0) t).atts.reverse.map (fun a => (a.tag, a.cand.parts, a.resp))).take 5
+      = [(2, [[0x7B], [0x61]], .rejected), (1, [[0x61]], .rejected), (9, [[0x7B], [0x7D], [0x61]], .rejected),
+         (9, [[0x61], [0x7B], [0x7D]], .accepted), (2, [[0x7B], [0x7D]], .rejected)] := by
+  decide
 
 /-- non-vacuity: a char-mode file with markers and a CR before the DDEND line -/
 example :
